@@ -22,6 +22,8 @@
    which start the miner and thereby (on a clique chain only) block sealing through the
    keystore entry point SignHashAllowed — and reach no other entry point. *)
 From AQ Require Import Lib.Bytes Rpc.Registry Generated.GenApis Rpc.RpcModel Rpc.RpcProofs.
+From Coq Require Strings.String.
+Import String.StringSyntax.
 Import ListNotations.
 
 (* --- the main theorem: default environment, every chain kind, transport and whitelist --- *)
